@@ -137,6 +137,25 @@ HARNESSES = [
                "extents per leaf, block size 36 bytes; start position concrete per query (after ROOT; last extent of "
                "a leaf; first extent of a leaf); moves NEXT_LEAF, LAST_LEAF, PREV_LEAF, DOWN, NEXT; per-block checksum "
                "verdicts, logical block numbers and extent payload symbolic"),
+    dict(name="sbwrite_t", src="sbwrite_t.c",
+         funcs=["write_backup_super", "ext2fs_superblock_csum_set"],
+         configs=[{"MODE": 1, "CSUM": 1}, {"MODE": 1, "CSUM": 0}, {"MODE": 2, "CSUM": 1}, {"MODE": 2, "CSUM": 0}],
+         unwind=4, unwindset=["main.%d:1030" % i for i in range(6)] +
+                   ["ext2fs_crc32c_le.0:1030", "io_channel_write_blk64.0:1030"],
+         backends=["kissat", "default"],
+         bound="one 1024-byte superblock copy per query, all bytes symbolic except the feature words; group (2^32) and "
+               "block number (2^64) symbolic; backup path (write_backup_super) and primary path (tail of ext2fs_flush2 "
+               "+ write_primary_superblock fallback), metadata_csum on/off"),
+    dict(name="iscan_p", src="iscan_p.c", extra_src=["lib/ext2fs/blknum.c", "lib/ext2fs/extent.c"],
+         funcs=["ext2fs_get_next_inode_full", "get_next_blockgroup", "get_next_blocks", "check_inode_block_sanity"],
+         configs=[{"BUF": 2}, {"BUF": 2, "UNUSED": 1}, {"BUF": 1}, {"BUF": 3}, {"BUF": 2, "IGN": 1}],
+         unwind=17, unwindset=["io_channel_read_blk64.%d:1030" % i for i in range(5)],
+         # all buffer indices are concrete: per-element SSA keeps the 2-3 KiB scan buffers out of the array theory
+         #cbmc_flags=["--max-field-sensitivity-array-size", "3100"],
+         backends=["default", "kissat"],
+         bound="2 groups x 3 inode-table blocks x 2 inodes per block (inode size 512, block size 1024), scan buffer of "
+               "1, 2 or 3 blocks, bg_itable_unused 0 or 1; complete scan (13 calls); per-inode checksum verdict and "
+               "insane bit symbolic"),
     dict(name="crc16_d", src="crc16_d.c", funcs=["ext2fs_crc16"],
          configs=[{"MODE": 2, "LEN": n} for n in (2, 0, 1, 3)] + [{"MODE": 1}],
          unwindset=["ref_crc16_byte.0:9", "main.0:5", "ext2fs_crc16.0:5"], backends=["default", "kissat", "z3"],
